@@ -1,16 +1,16 @@
 #!/bin/bash
-# run_seeded.sh [tier] : apply every seeded change under /verif/seeded to /repo in turn, run the check of the
-# property it breaks (quick by default), undo it, and say whether the check raised an alarm.
-tier="${1:-quick}"
-cd /repo && [ -z "$(git status --porcelain --untracked-files=no)" ] || { echo "repo dirty"; exit 2; }
-for d in /verif/seeded/*/; do
-  id="$(basename "$d")"; prop="$(jq -r .property "$d/meta.json")"
+# run_seeded.sh [tier] [id...] : apply every seeded change under /verif/seeded (or the given ones) to a scratch
+# copy of /repo in turn, run the check of the property it breaks against that copy (quick by default), and say
+# whether the check raised an alarm.  /repo itself, evidence/ and replays/ are not touched.
+tier="${1:-quick}"; shift
+ids=("$@"); [ ${#ids[@]} -eq 0 ] && ids=($(ls /verif/seeded | grep -E '^C[0-9]+-'))
+for id in "${ids[@]}"; do
+  d="/verif/seeded/$id"; prop="$(jq -r .property "$d/meta.json")"
   if jq -e .obsolete "$d/meta.json" >/dev/null; then echo "$id: obsolete (see meta.json), skipped"; continue; fi
-  git -C /repo apply "$d/patch.diff" || { echo "$id: patch does not apply"; continue; }
-  out="$(cd /verif && ./vcheck "$prop" "$tier" 2>&1)"; rc=$?
-  git -C /repo checkout -q -- .
+  alt="$(/verif/tools/altrepo.sh)"
+  git -C "$alt" apply "$d/patch.diff" || { echo "$id: patch does not apply"; continue; }
+  out="$(cd /verif && VERIF_REPO="$alt" ./vcheck "$prop" "$tier" 2>&1)"; rc=$?
   classes="$(echo "$out" | grep -aE '^  class:' | sed 's/  class: //' | sort -u | tr '\n' ';' | cut -c1-200)"
   if [ $rc -eq 1 ]; then echo "$id ($prop $tier): CAUGHT  $classes"; else echo "$id ($prop $tier): MISSED (exit $rc)"; fi
 done
-rm -rf /verif/replays
-git -C /verif checkout -q -- evidence 2>/dev/null  # evidence written by runs against a changed tree is not evidence
+/verif/tools/altrepo.sh >/dev/null
